@@ -55,7 +55,21 @@ pub fn exec(op: &str, args: &[&str], out: &mut Out) -> Option<()> {
             });
             out.check(p.first().map(|t| t.encoded().to_string()) == rt.first().map(|t| t.to_string()) && p.front() == p.first(), "C04", || format!("first/front of {s:?}"));
             out.check(p.last().map(|t| t.encoded().to_string()) == rt.last().map(|t| t.to_string()) && p.back() == p.last(), "C04", || format!("last/back of {s:?}"));
-            for i in 0..=rt.len() {
+            // get(i) for every i (for pointers with thousands of tokens: the ends, and indices around every power of two)
+            let n = rt.len();
+            let idxs: Vec<usize> = if n <= 3000 {
+                (0..=n).collect()
+            } else {
+                let mut v: Vec<usize> = (0..40).chain(n - 40..=n).collect();
+                for k in 5..usize::BITS {
+                    let b = 1usize << k;
+                    if b <= n + 1 {
+                        v.extend([b - 1, b, b + 1].into_iter().filter(|i| *i <= n));
+                    }
+                }
+                v
+            };
+            for i in idxs {
                 out.check(p.get(i).map(|t| t.encoded().to_string()) == rt.get(i).map(|t| t.to_string()), "C04,C12", || format!("get({i}) of {s:?}"));
             }
             let comps: Vec<Component> = p.components().collect();
@@ -170,6 +184,22 @@ pub fn gen(tier: &str, rng: &mut Rng, emit: &mut dyn FnMut(String)) {
         emit(format!("acc {}", hex(format!("/{e}").as_bytes())));
         emit(format!("acc {}", hex(format!("/x/{e}/y").as_bytes())));
         emit(format!("acc {}", hex(format!("/{e}/{e}").as_bytes())));
+    }
+    for l in sweep_lengths(tier) {
+        if l % 2 == 0 {
+            let a = "a".repeat(l);
+            emit(format!("acc {}", hex(format!("/{a}/k").as_bytes())));
+            emit(format!("ftok {} {}", hex(a.as_bytes()), hex(b"k")));
+        }
+    }
+    for n in SCALE_64K {
+        if n == 65_537 {
+            // (the accessor case walks get(i) for every i: one pointer of that many tokens is enough)
+            let p: String = (0..n).map(|_| "/a").collect();
+            emit(format!("acc {}", hex(p.as_bytes())));
+        }
+        emit(format!("acc {}", hex(format!("/{}~1/k", "a".repeat(n)).as_bytes())));
+        emit(format!("ftok {}", hex(format!("~{}/", "a".repeat(n)).as_bytes())));
     }
     for n in MANY {
         for tok in ["a", "", "~0", "ab"] {
